@@ -167,7 +167,8 @@ def check(ctx):
         if key in seen:
             continue
         seen.add(key)
-        it = s['raw_iter']
+        from . import c07
+        it = c07.norm_iter(s['raw_iter'])
         if it.startswith('sorted('):
             r2.ok('%s: %s' % key, w.mod.rel, s['line'], detail='sorted')
             continue
